@@ -20,7 +20,9 @@ CHECKS = {
         text="TLC checks on DdsEval that an evaluation machine whose store is keyed by the dependency cone always returns "
              "the dds-free reference value (RetCorrect, Sound) over all bounded edit/revert/restart histories of the shape "
              "family; every complete history TLC enumerates is then replayed against /repo (real packages on disk, fresh "
-             "processes, store kinds local / local+LRU / memory / noop, several import forms and layouts) and each "
+             "processes, store kinds local / local+LRU / memory / noop, import forms incl. function-local imports, layouts, "
+             "helpers as one- and two-method classes, notebook cells, a __main__ script, plain calls with arguments and handed-on "
+             "parameters, helper calls inside argument expressions, builtin-named variables, paths given by variables) and each "
              "returned value must equal the spec's Val term, which a dds-free stub run of the same sources must also produce.",
         design_ref="DESIGN.md 5 C01, 2.2, 3.1-3.3"),
     "C02": dict(
@@ -125,7 +127,9 @@ CHECKS = {
              "loads of the kept function and of the plain helpers below it; dotted only from earlier siblings to run-time-"
              "argument keeps) and TLC checks it is acyclic for every shape. Each generated history is replayed twice, with and "
              "without graph export: results and sync_paths signatures must be equal, the export must succeed, and the parsed "
-             "dot file must have exactly the spec's nodes, solid and dashed edges, any other edge being an allowed dotted one.",
+             "dot file must have the spec's nodes, exactly its solid and dashed edges (also both between one pair), any other edge "
+             "being an allowed dotted one; shapes include one function kept under two paths, run-time keeps loading a sibling, "
+             "kept - plain - kept - load chains.",
         design_ref="DESIGN.md 5 C18"),
     "C05": dict(
         engine="tlc-generate+tlc-trace",
@@ -133,11 +137,13 @@ CHECKS = {
                   "Supported, enumerated by TLC; every value built and hashed by the real dds_hash (and dds.keep), partition by "
                   "signature compared with the partition by Canon; recorded observations on random deep values judged by TLC "
                   "(ValuesTrace recomputes Canon and keeps the table signature -> class)",
-        text="TLC enumerates the universe (47 named atoms incl. boundary ints, signed zeros, nan/inf, separator-like and sentinel "
-             "strings, dates, paths; all containers of length <= 2 over 12 core atoms incl. named tuples, dicts, two dataclasses; "
-             "depth 2 in thorough) with each value's Canon class. The harness hashes every value: any exception other than a "
+        text="TLC enumerates the universe (60 named atoms incl. boundary ints, an int beyond the decimal digit limit, signed zeros, "
+             "nan/inf, separator-like and sentinel strings, a lone surrogate, dates, paths, unsupported values; all containers of "
+             "length <= 2 over the core atoms incl. named tuples, dicts with string and non-string keys, two dataclasses, a "
+             "dataclass inside a dataclass / list; depth 2 in thorough) with each value's Canon class. The harness hashes every value: any exception other than a "
              "coded DDS error on an unsupported value, any two values of different classes with one signature, or a different "
-             "signature in a second process with another hash seed is a violation; random deeper values are recorded and TLC "
+             "signature in a second process (other hash seeds, and one process hashing the sample in the opposite order) is a "
+             "violation; random deeper values are recorded and TLC "
              "checks the same partition property on the trace.",
         design_ref="DESIGN.md 5 C05, 4.4", category="model_checking",
         note="This is the function-shaped corner of the technique: TLC defines and enumerates the universe and the expected "
@@ -150,7 +156,8 @@ CHECKS = {
         text="TLC enumerates every parameter list with up to 2 (thorough: 3) parameters and defaults from {None,0,False,'',1,'a'}, "
              "every spelling (positional prefix, keywords, defaults omitted or explicit) over {None,0,1,True,'','a'} and its "
              "binding. Each is run as dds.keep(path,g,...) directly and as a literal call inside dds.eval(h), keywords in both "
-             "orders, on a fresh recording store: one binding with two signatures, or two bindings with one, is a violation.",
+             "orders, on a fresh recording store and after redefinition of the function in the same process: one binding with two "
+             "signatures, or two bindings with one, is a violation (thorough adds the 4-parameter lists over two values).",
         design_ref="DESIGN.md 5 C13", category="model_checking",
         note="Function-shaped: TLC supplies the universe and the expected partition. bool = int is a documented identification."),
     "C06": dict(
@@ -178,8 +185,8 @@ CHECKS = {
                   "processes under the shim's controlled scheduler; merged call traces validated by TLC against FsTrace",
         text="TLC explores every interleaving (no preemption bound) of the race scenarios (same keep on a cold store incl. store "
              "creation, re-keep vs load, re-keep vs re-keep, three processes) for the 'atomic' protocol and rejects 'inplace'. "
-             "On the real code two shimmed processes run the same scenarios (plus two data directories over one internal "
-             "directory) with exactly one file-system call in flight; schedules are enumerated depth-first with up to 1 (quick) / "
+             "On the real code two (two scenarios: three) shimmed processes run the same scenarios (plus two data directories over "
+             "one internal directory) with exactly one file-system call in flight; schedules are enumerated depth-first with up to 1 (quick) / "
              "2 (thorough) preemptions; every keep / load that returns must return the complete correct value (loads: old or "
              "new), no process may fail, and a fresh process afterwards must keep and load correctly.",
         design_ref="DESIGN.md 5 C07, 2.4", category="model_checking",
@@ -237,7 +244,8 @@ CHECKS = {
              "BlobRoundTrip/PathRoundTrip; all sequences of length <= 3 plus simulated length-14 behaviours are replayed on "
              "MemoryStore, LocalFileStore and their cache-wrapped forms over three path sets (concatenation-ambiguous, 1-4 "
              "segments, spaces/unicode/dot-names), every answer compared with the model; random executions with '.'/'..' "
-             "paths are recorded (answers + whether every created entry lies inside data_dir) and judged by TLC (StoreTrace).",
+             "paths, and executions of two live store objects re-committing paths in alternation, are recorded (answers + whether "
+             "every created entry lies inside data_dir) and judged by TLC (StoreTrace); altered copies of recorded traces must be rejected.",
         design_ref="DESIGN.md 5 C08, 2.4, 3.4",
         note="Trusted: TLC; the driver's projection of real answers into the model vocabulary; directory snapshots for the "
              "'inside data_dir' observation. Content-addressed use (a key always stores the same value); no prefix-conflicting "
